@@ -38,7 +38,14 @@
 (*     ChDelete at x / AddTrailing / BRest = other_pairs[k] = v), or       *)
 (*     Fmt = str(block i), MutVer = in-place edit of the Version object    *)
 (*     handed out for block i, Reparse = the initial text parsed again     *)
-(*     into a new object whose blocks are rp, SetVersionWS = cl.version =  *)
+(*     into a new object whose blocks are rp,                              *)
+(*     FaultParse = ANOTHER object of the process parses an input that     *)
+(*     fails (x = 1 .. 4: Changelog!FaultKinds -- its iterator raised, it  *)
+(*     ended early at a line end / inside a line / inside a multi-byte     *)
+(*     character); never judged, the document of the history stays what it *)
+(*     is and the specification keeps nothing of that input (KeptTail):    *)
+(*     every later Reparse / formatting shows what it would have shown;    *)
+(*     SetVersionWS = cl.version =                                         *)
 (*     valid version + white space (v = <<0>> rejected with ValueError,    *)
 (*     else the version shown afterwards) -- with interned arguments v,    *)
 (*     and after it:                                                       *)
@@ -151,6 +158,8 @@ OutMatches(o, t) ==
          THEN o[i].h = t[i].h /\ (t[i].c \in EndDetailed => o[i].c = t[i].c)
          ELSE o[i].v = t[i].id
 
+FaultKindSeq == <<"exc", "eofLine", "eofInLine", "eofInChar">>
+
 Masked(bl, m) == [j \in 1..Len(bl) |-> IF j \in m THEN [bl[j] EXCEPT !.h[2] = 0] ELSE bl[j]]
 
 TEdit ==
@@ -166,18 +175,22 @@ TEdit ==
           d2   == IF adds /\ hit # {} THEN CHOOSE c \in hit : TRUE
                   ELSE IF old THEN EditApply(D, e.op, e.v)
                   ELSE IF e.op = "BRest" THEN [D EXCEPT !.bl[e.i].h[5] = e.v[1]]      \* other_pairs after an in-place edit, as observed
-                  ELSE IF e.op = "Reparse" THEN D
+                  ELSE IF e.op \in {"Reparse", "FaultParse"} THEN D
                   ELSE HApply(D, op3, e.v)
           en   == IF old THEN EditEnabled(D, e.op)
                   ELSE IF e.op = "BRest" THEN e.i \in 1..Len(D.bl)
-                  ELSE IF e.op = "Reparse" THEN TRUE ELSE HValid(D, op3)
+                  ELSE IF e.op = "Reparse" THEN TRUE
+                  ELSE IF e.op = "FaultParse" THEN e.x \in 1..Len(FaultKindSeq) ELSE HValid(D, op3)
           \* blocks whose own handed-out Version object was edited in place: their version is not judged
           mut2 == IF e.op = "MutVer" THEN rs.mut \cup {e.i}
                   ELSE IF e.op \in {"NewBlockFull", "NewBlockEmpty"} THEN {j + 1 : j \in rs.mut} ELSE rs.mut
           shown == Masked(e.bl, mut2) = Masked(BlocksProj(d2), mut2)
           \* Reparse: the text parsed at the start is parsed again into a NEW object (any input form): it
           \* exposes what is written, whatever happened to other objects
-          again == e.op = "Reparse" => e.rp = BlocksProj(ParseText(TraceText(Tr.lines), aea).doc)
+          \* (whatever the process went through before -- rs.carry -- the parse gets its own input: KeptTail)
+          again == e.op = "Reparse" => /\ e.rp = BlocksProj(ParseText(TraceText(Tr.lines), aea).doc)
+                                       /\ KeptTail(rs.carry) = <<>>
+          carry2 == IF e.op = "FaultParse" /\ en THEN FaultKindSeq[e.x] ELSE IF e.op = "Reparse" THEN "none" ELSE rs.carry
           tgt  == IF e.op = "Fmt" THEN e.i ELSE 0                   \* what was formatted after the call: the changelog or block i
           able == IF tgt = 0 THEN Formattable(d2) ELSE BlockFormattable(d2.bl[tgt])
           same == e.fobs => (e.fmt = able /\ (able => OutMatches(e.out, RefOut(d2, tgt))))
@@ -189,7 +202,7 @@ TEdit ==
                                                                      \* document; the blocks expose what was written / assigned
          /\ (~VerdictOnly => (same /\ shown /\ again /\ (adds => d2 = EditApply(D, e.op, e.v))))   \* diagnostic: today's position
          /\ ((~VerdictOnly /\ l = 1) => Tr.bl0 = BlocksProj(D))
-         /\ rs' = [rs EXCEPT !.mut = mut2]
+         /\ rs' = [rs EXCEPT !.mut = mut2, !.carry = carry2]
    /\ l' = l + 1 /\ UNCHANGED <<P, sraised, gs>> /\ Frame
    /\ (Diag => PrintT(<<"AT", tid, l>>))
    /\ (l' = N + 1 => PrintT(<<"ACCEPTED", tid>>))
